@@ -39,6 +39,8 @@ type Mod struct {
 	// name). It is the only way the submodule can name its module's definitions; the prefix the
 	// owner declares for itself is not in scope there and may be bound to an import.
 	BelongsPfx string
+	// Prefix: the prefix a module declares for itself ("" = its name).
+	Prefix string
 }
 
 func Leaf(n, t string) *S              { return &S{Kind: "leaf", Name: n, Type: t} }
@@ -118,7 +120,11 @@ func (m *Mod) Text() string {
 		}
 		fmt.Fprintf(&sb, "submodule %s { belongs-to %s { prefix %s; }", m.Name, m.Owner, bp)
 	} else {
-		fmt.Fprintf(&sb, `module %s { namespace "urn:%s"; prefix %s;`, m.Name, m.Name, m.Name)
+		pfx := m.Prefix
+		if pfx == "" {
+			pfx = m.Name
+		}
+		fmt.Fprintf(&sb, `module %s { namespace "urn:%s"; prefix %s;`, m.Name, m.Name, pfx)
 	}
 	if m.Rev != "" {
 		fmt.Fprintf(&sb, " revision %s;", m.Rev)
@@ -211,6 +217,9 @@ func NewWorld(mods ...*Mod) *World {
 func (w *World) ownPrefix(m *Mod) string {
 	if m.Owner != "" && m.BelongsPfx != "" {
 		return m.BelongsPfx
+	}
+	if m.Owner == "" && m.Prefix != "" {
+		return m.Prefix
 	}
 	return w.ownerName(m)
 }
@@ -549,4 +558,114 @@ func (e *E) Walk(path string, f func(path string, n *E)) {
 	for _, k := range ks {
 		e.Kids[k].Walk(path+"/"+k, f)
 	}
+}
+
+// ---------------------------------------------------------------------------------------------
+// prefix schemes
+
+// PrefixSchemes is the number of ways Reprefix can spell the prefixes of a world (scheme 0 is the
+// plain one: every prefix equals the name of the module it stands for).
+const PrefixSchemes = 4
+
+// Reprefix returns a copy of the world in which the same modules know themselves and one another
+// under other prefixes; every prefixed reference in the bodies is rewritten accordingly, so the
+// meaning of the schema - and with it the expected trees - is unchanged.
+//
+//	1: prefixes with dots in them; own, import and belongs-to prefixes all differ
+//	2: every module declares, and is imported under, the NAME of another loaded module
+//	3: all modules declare the same prefix; importers bind distinct ones
+func Reprefix(w *World, scheme int) *World {
+	if scheme == 0 {
+		return w
+	}
+	var tops []string // the modules proper, in order
+	for _, n := range w.Order {
+		if w.Mods[n].Owner == "" {
+			tops = append(tops, n)
+		}
+	}
+	next := map[string]string{}
+	for i, n := range tops {
+		next[n] = tops[(i+1)%len(tops)]
+	}
+	own := func(m string) string { // the prefix module m declares for itself
+		switch scheme {
+		case 1:
+			return "p." + m
+		case 2:
+			return next[m]
+		}
+		return "q"
+	}
+	imp := func(importer, m string) string { // the prefix importer binds m to
+		switch scheme {
+		case 1:
+			return "i." + m + ".x"
+		case 2:
+			return next[m]
+		}
+		return "i" + m
+	}
+	belongs := func(owner string) string {
+		if scheme == 1 {
+			return "o." + owner
+		}
+		return own(owner)
+	}
+	var mods []*Mod
+	for _, n := range w.Order {
+		old := w.Mods[n]
+		m := *old
+		m.Imports, m.Alias, m.Body = nil, map[string]string{}, nil
+		ren := map[string]string{}
+		if old.Owner != "" {
+			m.BelongsPfx = belongs(old.Owner)
+			ren[w.ownPrefix(old)] = m.BelongsPfx
+		} else {
+			m.Prefix = own(old.Name)
+			ren[w.ownPrefix(old)] = m.Prefix
+		}
+		for _, x := range old.Imports {
+			p := imp(old.Name, x)
+			m.Alias[p] = x
+			ren[x] = p
+		}
+		for p, x := range old.Alias {
+			m.Alias[p] = x
+		}
+		ref := func(s string) string {
+			if pfx, base := split(s); pfx != "" {
+				if np, ok := ren[pfx]; ok {
+					return np + ":" + base
+				}
+			}
+			return s
+		}
+		var walk func(s *S)
+		walk = func(s *S) {
+			switch s.Kind {
+			case "uses":
+				s.Name = ref(s.Name)
+			case "augment":
+				steps := strings.Split(s.Name, "/")
+				for i := range steps {
+					steps[i] = ref(steps[i])
+				}
+				s.Name = strings.Join(steps, "/")
+			}
+			if s.Type != "" {
+				s.Type = ref(s.Type)
+			}
+			for _, k := range s.Kids {
+				walk(k)
+			}
+		}
+		for _, s := range old.Body {
+			c := s.Clone()
+			walk(c)
+			m.Body = append(m.Body, c)
+		}
+		mods = append(mods, &m)
+	}
+	return NewWorld(mods...)
 }
